@@ -279,6 +279,24 @@ func (root *Root) skipSel(sel Selection, vars map[string]interface{}) (skip bool
 	return
 }
 
+// resolveMember resolves one member of a typed slice the same way members of
+// a []interface{} are resolved so that the member is coerced to the list's
+// base type.
+func (root *Root) resolveMember(
+	x interface{},
+	i int,
+	vars map[string]interface{},
+	field *Field,
+	lt Type,
+	depth int,
+	eap *[]error) interface{} {
+
+	v, ea := root.resolve(x, vars, field, lt, depth)
+	Errors(ea).in(i)
+	*eap = append(*eap, ea...)
+	return v
+}
+
 func (root *Root) resolveList(
 	obj interface{},
 	vars map[string]interface{},
@@ -313,44 +331,44 @@ func (root *Root) resolveList(
 		result = rlist
 	case []string:
 		rlist := make([]interface{}, 0, len(list))
-		for _, s := range list {
-			rlist = append(rlist, s)
+		for i, x := range list {
+			rlist = append(rlist, root.resolveMember(x, i, vars, field, lt, depth, &ea))
 		}
 		result = rlist
 	case []int:
 		rlist := make([]interface{}, 0, len(list))
-		for _, i := range list {
-			rlist = append(rlist, i)
+		for i, x := range list {
+			rlist = append(rlist, root.resolveMember(x, i, vars, field, lt, depth, &ea))
 		}
 		result = rlist
 	case []int64:
 		rlist := make([]interface{}, 0, len(list))
-		for _, i := range list {
-			rlist = append(rlist, i)
+		for i, x := range list {
+			rlist = append(rlist, root.resolveMember(x, i, vars, field, lt, depth, &ea))
 		}
 		result = rlist
 	case []bool:
 		rlist := make([]interface{}, 0, len(list))
-		for _, b := range list {
-			rlist = append(rlist, b)
+		for i, x := range list {
+			rlist = append(rlist, root.resolveMember(x, i, vars, field, lt, depth, &ea))
 		}
 		result = rlist
 	case []float32:
 		rlist := make([]interface{}, 0, len(list))
-		for _, f := range list {
-			rlist = append(rlist, f)
+		for i, x := range list {
+			rlist = append(rlist, root.resolveMember(x, i, vars, field, lt, depth, &ea))
 		}
 		result = rlist
 	case []float64:
 		rlist := make([]interface{}, 0, len(list))
-		for _, f := range list {
-			rlist = append(rlist, f)
+		for i, x := range list {
+			rlist = append(rlist, root.resolveMember(x, i, vars, field, lt, depth, &ea))
 		}
 		result = rlist
 	case []time.Time:
 		rlist := make([]interface{}, 0, len(list))
-		for _, f := range list {
-			rlist = append(rlist, f)
+		for i, x := range list {
+			rlist = append(rlist, root.resolveMember(x, i, vars, field, lt, depth, &ea))
 		}
 		result = rlist
 	default:
